@@ -1,3 +1,4 @@
+import RactorModel.Lemmas.FailingTransport
 import RactorModel.Lemmas.GenJobMeta
 import RactorModel.Lemmas.GenFrame
 import RactorModel.Lemmas.Frames
@@ -731,6 +732,59 @@ theorem rpc_variant_roundtrip_any_port_position (vs : List Variant) (tag : Strin
   have := enum_roundtrip vs ⟨tag, .call, fields⟩ vals m hv hwf hs hlen
   exact ⟨vals, this, rfl, (reply_port_position (vals.map some) none idx (by simpa using hidx')).2.1⟩
 
+/-- (a transport that fails — as a BRANCH of the read loop) `Model/FailingTransport.lean`: the
+transport answers some read — at any byte offset, inside a length header or a payload, with
+anything after it — with an I/O error, and `read_u64` / `read_n_bytes` / `read_network_message` /
+the reader loop propagate it (`?`). For every fragmentation `chunks` of the bytes before the failure
+and everything `rest` after it: the reader's life is exactly what `readFramesIo` describes (so
+`io_error_stops_reader` is a theorem about this reader, no longer a renaming): frames, then
+exactly one error, never reported as a clean EOF (`frame_read_error`, not `channel_closed`), the
+frames decoded before the failure being those of the same bytes followed by EOF; and without a
+failure it is `readFrames`. -/
+theorem reader_over_failing_transport {Msg : Type} (dec : Bytes → Option Msg) (max : Nat) (chunks : List Bytes)
+    (rest : List Piece) :
+    readFramesT dec max (chunks.map .data ++ .fail :: rest) = (readFramesIo dec max chunks true).1 ∧
+    readFramesT dec max (chunks.map .data) = (readFrames dec max chunks).1 ∧
+    stopsAtFirstError (readFramesT dec max (chunks.map .data ++ .fail :: rest)) = true ∧
+    FrameRes.err FrameErr.eof ∉ readFramesT dec max (chunks.map .data ++ .fail :: rest) ∧
+    (∀ e, FrameRes.err e ∈ readFramesT dec max (chunks.map .data ++ .fail :: rest) → stopReason e = "frame_read_error") ∧
+    (∀ m, FrameRes.ok m ∈ readFramesT dec max (chunks.map .data ++ .fail :: rest) ↔
+      FrameRes.ok m ∈ (readFrames dec max chunks).1) ∧
+    readFramesT dec max (chunks.map .data ++ .fail :: rest) = readFramesT dec max ([chunks.flatten].map .data ++ [.fail]) := by
+  have key : ∀ (cs : List Bytes) (r : List Piece),
+      readFramesT dec max (cs.map .data ++ .fail :: r) = (readFramesIo dec max cs true).1 := by
+    intro cs r
+    have h1 := dataLen_tl true r cs
+    have h2 := readFramesLoopT_eq dec max true r (streamLen cs + 1) cs
+    simp only [tl, ↓reduceIte] at h1 h2
+    simp only [readFramesT, h1, h2, readFramesIo, readFrames]
+  have h0 : readFramesT dec max (chunks.map .data) = (readFrames dec max chunks).1 := by
+    have h1 := dataLen_tl false [] chunks
+    have h2 := readFramesLoopT_eq dec max false [] (streamLen chunks + 1) chunks
+    simp only [tl, Bool.false_eq_true, ↓reduceIte, List.append_nil] at h1 h2
+    simp only [readFramesT, h1, h2, readFrames]
+    have : ∀ rs : List (FrameRes Msg), rs.map (ioEnd false) = rs := by
+      intro rs
+      induction rs with
+      | nil => rfl
+      | cons r rs ih =>
+        simp only [List.map_cons, ih]
+        congr 1
+        cases r with
+        | ok m => rfl
+        | err e => cases e <;> rfl
+    exact this _
+  obtain ⟨a, b, c, d, e⟩ := io_error_stops_reader dec max chunks true
+  rw [key chunks rest]
+  refine ⟨rfl, h0, a, d rfl, e, c, ?_⟩
+  rw [key [chunks.flatten] []]
+  exact b
+
+example : readFramesT (fun b => some b) 100 [.data [0, 0, 0, 0, 0, 0, 0, 2, 7], .data [8, 0, 0], .fail, .data [0]] =
+    [.ok [7, 8], .err .io] := by decide
+example : readFramesT (fun b => some b) 100 [.data [0, 0, 0, 0, 0, 0, 0, 2, 7], .data [8, 0, 0]] =
+    [.ok [7, 8], .err .eof] := by decide
+
 end C19
 
 #print axioms C19.int_roundtrip
@@ -774,3 +828,4 @@ end C19
 #print axioms C19.undecodable_serialized_messages_never_stop_the_actor
 #print axioms C19.local_decode_failure_stops_the_actor
 #print axioms C19.rpc_variant_roundtrip_any_port_position
+#print axioms C19.reader_over_failing_transport
